@@ -89,6 +89,10 @@ def generate(rng, tier, r):
     prog["segments"] = [{"n": n}]
     prog["verbose"] = False
     prog["fault"] = {"origin": origin, "kind": kind, "k": k, "program": p}
+    if prng.random() < 0.25:
+        # option combination: a validation module (that never asks to stop) is present while the fault happens
+        prog["validation"] = {"kind": "scripted", "period": prng.choice([1, 2, 3]),
+                              "script": [{"improved": prng.random() < 0.5, "stop": False} for _ in range(3)]}
     if prog["eq"] == "sysode":
         prog["dkeys"] = "default"
     if origin in ("update-nn", "update-eq", "grad-nn", "grad-eq"):
@@ -143,7 +147,11 @@ def execute(program, ctx):
         raise Violation(ID, inv, f"{ID}.{inv}/{program['eq']}/{program['opt']['kind']}/{program['driver']}/{origin}/{what}", details, None)
 
     carries = []
-    out, stdout = ts.call_solve(P, n, P.params, P.data, P.param_data, P.obs_data, P.init_opt_state,
+    vmod = None
+    if program.get("validation"):
+        vmod = ts.scripted_validation(program["validation"]["period"], program["validation"]["script"])
+        ctx.count("probe.with_validation_module")
+    out, stdout = ts.call_solve(P, n, P.params, P.data, P.param_data, P.obs_data, P.init_opt_state, validation=vmod,
                                 driver=program["driver"], verbose=False,
                                 observer=(lambda c: carries.append(c)) if program["driver"] == "M2" else None)
     o_params, o_loss, o_terms, o_data, o_lossobj, o_opt, o_stored, _, _ = out
